@@ -25,6 +25,27 @@ def mergeTables (acc : Table) (part : Table) : Table :=
 def buildHashPar (k : Row → Value) (chunks : List (List Row)) : Table :=
   (chunks.map (fun c => build k c [])).foldl mergeTables []
 
+/-- parallel hash join: parallel build over the build side's chunks, the probe side probed
+chunk by chunk, results concatenated in chunk order; side choice as in `hashJoinInner`.
+The engine parallelises the build only (`hash_join/build.rs`): its probe is the one-chunk
+instance of this definition. -/
+def parHashJoin (kl kr : Row → Value) (lchunks rchunks : List (List Row)) : List Row :=
+  if lchunks.flatten.length ≤ rchunks.flatten.length then
+    let t := buildHashPar kl lchunks
+    (rchunks.map (fun c => c.flatMap (fun p => if kr p = .null then [] else (lookup t (kr p)).map (fun b => b ++ p)))).flatten
+  else
+    let t := buildHashPar kr rchunks
+    (lchunks.map (fun c => c.flatMap (fun p => if kl p = .null then [] else (lookup t (kl p)).map (fun b => p ++ b)))).flatten
+
+/-- `hash_semi_join.rs` / `hash_anti_join.rs` with the parallel build (`par_chunks`) -/
+def hashSemiPar (kl kr : Row → Value) (left : List Row) (rchunks : List (List Row)) : List Row :=
+  let t := buildHashPar kr rchunks
+  left.filter (fun l => kl l ≠ .null && !(lookup t (kl l)).isEmpty)
+
+def hashAntiPar (kl kr : Row → Value) (left : List Row) (rchunks : List (List Row)) : List Row :=
+  let t := buildHashPar kr rchunks
+  left.filter (fun l => kl l = .null || (lookup t (kl l)).isEmpty)
+
 /-- parallel sort: sort every chunk with the stable merge sort, then merge the sorted runs
 left to right with the stable two-way merge -/
 def parSort {α : Type} (le : α → α → Bool) (chunks : List (List α)) : List α :=
